@@ -81,8 +81,9 @@ Definition corpus : list (string * (style * prog)) :=
      (sq, [IFun (mkFun 1 [TBool; TBool] TBool [] []
                        (EAnd (EIf (ELoc 0) (EAnd (ELoc 0) (ELoc 1)) (ELoc 0)) (ELoc 1)) true 0);
            IStmt (SPrint [ECall 1 [ELit (LBool true); ELit (LBool true)]])]));
-    (* a function whose own `try` has caught an exception is called inside a `try`; the next
-       exception thrown to that outer `try` crashes (both routes) *)
+    (* a file-level `try` together with a function whose own `try` catches an exception: the
+       run time crashes (both routes); with every `try` inside functions, or every `try` at
+       file level, the same control flow works *)
     ("catch-in-callee-then-throw-to-caller",
      (sq, [IFun (mkFun 1 [] TBool []
                        [STry [SThrow 1] [(1, [SPrint [ELit (LStr "inner")]])]]
